@@ -63,11 +63,79 @@ func keyBuildVal(fn *ssa.Function, key ssa.Value, depth int) (pk ssa.Value, suff
 			}
 		}
 	}
+	if p2, s2, ok := keyAppendForm(root); ok {
+		return p2, s2, ""
+	}
 	mk, ok := root.(*ssa.MakeSlice)
 	if !ok {
 		return nil, nil, "key is not a freshly made slice: " + an.Term(key)
 	}
 	return keyBuildOfVal(fn, mk, func(v ssa.Value) bool { return sliceRootExact(v) == ssa.Value(mk) }, func(v ssa.Value) bool { return sliceRoot(v) == ssa.Value(mk) })
+}
+
+// keyAppendForm recognises key = append(append(empty, prefix...), suffix...) where empty is a zero-length make
+// (any capacity) or a nil slice; the intermediate slices are used by nothing else and the key's bytes are not
+// written afterwards, so the key is prefix || suffix.
+func keyAppendForm(root ssa.Value) (prefix, suffix ssa.Value, ok bool) {
+	appendOf := func(v ssa.Value) (base, tail ssa.Value, ok bool) {
+		call, isCall := v.(*ssa.Call)
+		if !isCall || !isBuiltin(call, "append") || len(call.Call.Args) != 2 {
+			return nil, nil, false
+		}
+		if _, isSlice := call.Call.Args[1].Type().Underlying().(*types.Slice); !isSlice {
+			return nil, nil, false
+		}
+		return call.Call.Args[0], call.Call.Args[1], true
+	}
+	soleUse := func(v ssa.Value) bool {
+		n := 0
+		for _, r := range *v.Referrers() {
+			if _, dbg := r.(*ssa.DebugRef); !dbg {
+				n++
+			}
+		}
+		return n == 1
+	}
+	mid, suf, ok1 := appendOf(root)
+	if !ok1 {
+		return nil, nil, false
+	}
+	empty, pre, ok2 := appendOf(mid)
+	if !ok2 || !soleUse(mid) {
+		return nil, nil, false
+	}
+	switch e := empty.(type) {
+	case *ssa.MakeSlice:
+		c, isConst := e.Len.(*ssa.Const)
+		if !isConst || c.Value == nil || c.Int64() != 0 || !soleUse(e) {
+			return nil, nil, false
+		}
+	case *ssa.Const:
+		if !e.IsNil() {
+			return nil, nil, false
+		}
+	default:
+		return nil, nil, false
+	}
+	// the finished key is stored or handed on, never written into or extended
+	for _, r := range *root.Referrers() {
+		switch x := r.(type) {
+		case *ssa.DebugRef:
+		case *ssa.Store:
+			if x.Val != root {
+				return nil, nil, false
+			}
+		case ssa.CallInstruction:
+			if _, isB := x.Common().Value.(*ssa.Builtin); isB {
+				if b := x.Common().Value.(*ssa.Builtin); b.Name() != "len" {
+					return nil, nil, false
+				}
+			}
+		default:
+			return nil, nil, false
+		}
+	}
+	return pre, suf, true
 }
 
 // keyBuildOf is keyBuild for a key identified by predicates: isKey(v) - v is the whole key; inKey(v) - v aliases (part of) the key.
